@@ -179,10 +179,14 @@ impl DomainResourceFilter {
 }
 
 fn get_key(name: &Name) -> Vec<u8> {
+    // every label is prefixed by its length, so that a key is a prefix of another key only when
+    // the name is an ancestor domain of the other name (label boundaries are part of the key)
     name.get_labels()
         .iter()
         .rev()
-        .flat_map(|label| label.to_string().into_bytes())
+        .flat_map(|label| {
+            std::iter::once(label.len() as u8).chain(label.as_bytes().iter().copied())
+        })
         .collect()
 }
 
